@@ -118,7 +118,19 @@ func runVecHistory(r *rand.Rand, p vecParams, o vecHistOpts, t *Trace) *Case {
 	dist, _ := comet.NewDistance(metrics[p.metric])
 	var resident []liveVec // ids ever added successfully (and still resident or removed)
 	removed := map[uint32]bool{}
-	nextID := uint32(1)
+	nextID := uint32(1) // counts the adds; the id handed to the index is idOf(nextID)
+	// ids are the caller's: ascending, descending, or in no order at all (storage order is insertion order,
+	// not id order -- nothing may rely on ids growing)
+	idMode := r.Intn(4)
+	idOf := func(n uint32) uint32 {
+		switch idMode {
+		case 1:
+			return 5000 - n
+		case 2:
+			return (n*7919)%10007 + 1
+		}
+		return n
+	}
 	emitTrain := func(n int) {
 		vs := make([][]float32, n)
 		nodes := make([]comet.VectorNode, n)
@@ -230,7 +242,7 @@ func runVecHistory(r *rand.Rand, p vecParams, o vecHistOpts, t *Trace) *Case {
 		x := r.Intn(100)
 		switch {
 		case x < 38: // add
-			id := nextID
+			id := idOf(nextID)
 			nextID++
 			if o.allowReuse && len(removed) > 0 && r.Intn(2) == 0 {
 				// update = remove + add: re-use an id whose removal succeeded (flushed or not)
@@ -246,7 +258,7 @@ func runVecHistory(r *rand.Rand, p vecParams, o vecHistOpts, t *Trace) *Case {
 			if o.allowDup && len(resident) > 0 && r.Intn(8) == 0 {
 				cand := resident[r.Intn(len(resident))].id
 				if !removed[cand] {
-					if id == nextID-1 {
+					if id == idOf(nextID-1) {
 						nextID--
 					}
 					id = cand
